@@ -331,16 +331,17 @@ func (c *oCache) TryRemove(id string) (ok bool, err error) {
 	closed, err := e.value.TryClose(c.ttl)
 	if err != nil {
 		c.log.With("object_id", e.id).Warnf("try remove err: %v", err)
-		return closed, err
 	}
 
+	// like GC: an error does not change what has to happen to the entry,
+	// otherwise it would stay in the closing state forever
 	if !closed {
 		e.setActive(true)
-		return false, nil
+		return false, err
 	}
 
 	c.closeAndDelete(e)
-	return true, nil
+	return true, err
 }
 
 func (c *oCache) DoLockedIfNotExists(id string, action func() error) error {
